@@ -59,7 +59,10 @@ MANIFEST = dict(
     'the semantic model without trusting the C++ engine (tallies "three-way" / "leanrun" of the evidence). New streams: availabilities written as int / float / bool / Numeric / constant expression / Variable / '
     'comparisons and products of a column, availability dictionaries in another key order, with extra or missing keys (refused), one-alternative nests (split off a nest, or an alone alternative in a nest of its own, nested and '
     'cross-nested), logmev_endogenous_sampling / mev_endogenous_sampling (any / zero / constant correction, availability None or dict; relation P_ES_i ∝ P_i exp(w_i) on the real outputs), ordered thresholds as free / fixed / '
-    'bounded Beta under several names and as number / Numeric / Variable / expression (refused).',
+    'bounded Beta under several names and as number / Numeric / Variable / expression (refused). '
+    'Round 4: free parameters (utility coefficients, ln G_i / correction coefficients, nest parameters, the top scale, memberships alpha, ordered threshold and its differences) are CREATED at one value and EVALUATED '
+    'at another one through the public betas= dictionary of get_value_c and through BIOGEME.simulate(the_beta_values=…) (pairs initial 0 -> 1, initial 1 -> 0.3 / another value, initial = lower bound); every oracle, the semantic model '
+    'and the three-way tie are stated at the evaluated values, so a defect that reads a parameter with get_value() while the expression is built is visible (tallies "evaluated away from the initial values").',
     design='DESIGN.md §5 C05',
     technique='Lean 4 theorems over an executable semantic model (NumOps: Float driver / real proofs) + differential correspondence with the real engine + property oracle on real outputs',
     note='Trusted: real vs IEEE arithmetic (overflow of exp not modelled; the engine shifts utilities, the model does not), the engine evaluation of the expression trees. '
@@ -309,8 +312,76 @@ def decorate(rng, case):
     return case
 
 
+def perturb(rng, case):
+    """round 4: free parameters are created at one value and evaluated at another one (through `betas=`).
+    Utility coefficients, nest parameters, the top scale, memberships: a fixed / numeric parameter is turned into a
+    free one for about half of them; special pairs initial 0 -> evaluated 1, initial 1 -> evaluated 0.3 (or another
+    value), initial = lower bound.  The value of the case (what every oracle and the models use) is the EVALUATED one."""
+    n_away = 0
+
+    def pick_init(v, allow_03=True):
+        """→ (initial value, evaluated value)"""
+        u = rng.random()
+        if u < 0.3:
+            return 0.0, (1.0 if rng.random() < 0.5 or v == 0.0 else v)
+        if u < 0.6:
+            return 1.0, (0.3 if allow_03 and rng.random() < 0.5 else (v if v != 1.0 else 2.5))
+        t = dyadic(rng, -3, 3)
+        return (t if t != v else t + 0.5), v
+
+    specs = list(case['util']) + list(case.get('logG') or []) + list(case.get('corr') or [])
+    for u in specs:
+        if u['k'] in ('beta', 'lin') and rng.random() < 0.6:
+            u['fixed'] = 0
+            u['init'], u['b'] = pick_init(float(u['b']))
+            n_away += 1
+    params = []
+    if 'mu' in case:
+        params.append((case['mu'], True))
+    for m in (case.get('nests') or {}).get('list', []):
+        params.append((m['mu'], False))
+    for prm, top in params:
+        if prm['form'] == 'beta_fixed' and rng.random() < 0.5 or prm['form'] == 'num' and rng.random() < 0.3:
+            prm['form'] = 'beta_free'
+        if prm['form'] != 'beta_free' or rng.random() < 0.2:
+            continue
+        u = rng.random()
+        if u < 0.4:
+            # created at 1 (a value at which the model degenerates to the logit), possibly its lower bound
+            prm['init'] = 1.0
+            if rng.random() < 0.5:
+                prm['lo'], prm['hi'] = 1.0, 10.0
+            if prm['v'] == 1.0:
+                prm['v'] = 0.3 if top and 'lo' not in prm and rng.random() < 0.5 else 2.5
+            elif top and 'lo' not in prm and rng.random() < 0.3:
+                prm['v'] = 0.3
+        elif u < 0.6 and prm['v'] != 1.0:
+            prm['init'] = prm['v'] + dyadic(rng, 0.25, 2)
+        else:
+            prm['init'] = dyadic(rng, 1, 5)
+            if prm['init'] == prm['v']:
+                prm['init'] += 0.5
+        n_away += 1
+    for m in (case.get('nests') or {}).get('list', []):
+        if 'alphas' not in m:
+            continue
+        for t in m['alphas']:
+            if t[1] > 0 and rng.random() < 0.4:
+                t[2] = 'beta_free'
+                init, val = pick_init(float(t[1]))
+                if val <= 0 or init < 0:
+                    init, val = 0.0, float(t[1])
+                t[1] = float(val)
+                m.setdefault('alpha_init', {})[str(t[0])] = float(init)
+                n_away += 1
+    if n_away:
+        case['away'] = n_away
+    return case
+
+
 def gen_case3(rng, family, k=None):
-    return decorate(rng, gen_case(rng, family, k))
+    case = decorate(rng, gen_case(rng, family, k))
+    return perturb(rng, case) if rng.random() < 0.7 else case
 
 
 TAU_FORMS_BETA = ['beta_free', 'beta_fixed', 'beta_bounds']
@@ -335,6 +406,21 @@ def gen_ordered(rng, family):
     u = rng.random()
     case['tau_form'] = 'beta_free' if u < 0.5 else rng.choice(TAU_FORMS_BETA) if u < 0.85 else rng.choice(TAU_FORMS_OTHER)
     case['tau_name'] = rng.choice(['tau', 'tau', 'tau1', 't_2', 'B_TAU'])
+    if case['tau_form'] in ('beta_free', 'beta_bounds') and rng.random() < 0.7:
+        # the threshold is created at another value (0, 1, or below: its lower bound for `beta_bounds`) and evaluated at `tau`
+        if case['tau_form'] == 'beta_bounds':
+            case['tau_init'] = case['tau'] - dyadic(rng, 0.25, 3)
+        else:
+            case['tau_init'] = rng.choice([0.0, 1.0, dyadic(rng, -2, 2)])
+            if case['tau_init'] == case['tau']:
+                case['tau_init'] += 0.75
+        case['away'] = 1
+    if case['x']['k'] in ('beta', 'lin') and rng.random() < 0.6:
+        case['x']['fixed'] = 0
+        case['x']['init'] = rng.choice([0.0, 1.0])
+        if case['x']['init'] == case['x']['b']:
+            case['x']['b'] = 0.3 if case['x']['init'] == 1.0 else 1.0
+        case['away'] = case.get('away', 0) + 1
     return case
 
 
@@ -433,6 +519,23 @@ def mk_database(case):
     return db.Database('t', pd.DataFrame(data))
 
 
+# Free parameters are CREATED at an initial value (`init` of the spec, when present) and EVALUATED at the value of
+# the case (`b` / `v` / alpha / `tau`) through the public `betas=` dictionary (round 4: a defect that reads a
+# parameter with get_value() when the expression is built is invisible when every evaluation runs at the initial
+# values).  The builders below register every free Beta they create; the evaluation functions pass the dictionary.
+_BETAS: dict = {}
+
+
+def free_beta(name, v, spec):
+    from biogeme.expressions import Beta
+
+    _BETAS[name] = float(v)
+    init = spec.get('init')
+    if init is None:
+        return Beta(name, float(v), None, None, 0)
+    return Beta(name, float(init), spec.get('lo'), spec.get('hi'), 0)
+
+
 def mk_util(u, shift=0.0):
     from biogeme.expressions import Beta, Variable
 
@@ -441,12 +544,14 @@ def mk_util(u, shift=0.0):
         return e + shift if shift else e
     if u['k'] == 'num':
         return float(u['c']) + shift if shift else float(u['c'])
+    if u['k'] in ('beta', 'lin'):
+        b = Beta(u['name'], float(u['b']), None, None, 1) if int(u['fixed']) else free_beta(u['name'], u['b'], u)
     if u['k'] == 'beta':
-        e = Beta(u['name'], float(u['b']), None, None, int(u['fixed']))
+        e = b
     elif u['k'] == 'var':
         e = Variable(u['col'])
     else:
-        e = Beta(u['name'], float(u['b']), None, None, int(u['fixed'])) * Variable(u['col']) + float(u['c'])
+        e = b * Variable(u['col']) + float(u['c'])
     return e + shift if shift else e
 
 
@@ -455,7 +560,9 @@ def mk_param(p):
 
     if p['form'] == 'num':
         return float(p['v'])
-    return Beta(p['name'], float(p['v']), None, None, 1 if p['form'] == 'beta_fixed' else 0)
+    if p['form'] == 'beta_fixed':
+        return Beta(p['name'], float(p['v']), None, None, 1)
+    return free_beta(p['name'], p['v'], p)
 
 
 AV_NUM_FORMS = ['int', 'float', 'bool', 'numeric', 'expr']
@@ -536,7 +643,12 @@ def mk_nests(case):
         if cnl:
             al = {}
             for a, x, aform in m['alphas']:
-                al[a] = float(x) if aform == 'num' else Beta(f'alpha_{j}_{a}', float(x), None, None, 1)
+                if aform == 'num':
+                    al[a] = float(x)
+                elif aform == 'beta_free':
+                    al[a] = free_beta(f'alpha_{j}_{a}', x, {'init': (m.get('alpha_init') or {}).get(str(a))})
+                else:
+                    al[a] = Beta(f'alpha_{j}_{a}', float(x), None, None, 1)
             items.append((mu, al) if form == 'tup' else OneNestForCrossNestedLogit(nest_param=mu, dict_of_alpha=al, **kw))
         else:
             items.append((mu, list(m['alts'])) if form == 'tup' else OneNestForNestedLogit(nest_param=mu, list_of_alternatives=list(m['alts']), **kw))
@@ -576,6 +688,7 @@ def real_values(case, log=False, shift=0.0, choices=None, python_path=False, obs
     _quiet()
     fam = case['family']
     try:
+        _BETAS.clear()
         d = mk_database(case)
         V = {a: mk_util(u, shift) for a, u in zip(case['alts'], case['util'])}
         av = mk_av(case)
@@ -587,6 +700,7 @@ def real_values(case, log=False, shift=0.0, choices=None, python_path=False, obs
             extra.append({a: mk_util(u) for a, u in zip(case['alts'], case['corr'])})
         nests = mk_nests(case) if 'nests' in case else None
         mu = mk_param(case['mu']) if 'mu' in case else None
+        betas = dict(_BETAS)
         out = {}
         for c in choices if choices is not None else case['alts']:
             if fam == 'logit':
@@ -602,21 +716,22 @@ def real_values(case, log=False, shift=0.0, choices=None, python_path=False, obs
             if python_path:
                 out[c] = [float(e.get_value())]
             elif obs is not None:
-                o = leanrun.observe(e, d)
+                o = leanrun.observe(e, d, betas)
                 if 'error' in o:
                     return {'err': o['error'].split(':')[0], 'msg': o['error']}
                 out[c] = o['values']
                 obs.append((c, o))
             else:
-                v = e.get_value_c(database=d, prepare_ids=True)
+                v = e.get_value_c(database=d, betas=dict(betas), prepare_ids=True)
                 out[c] = [float(x) for x in v]
         return {'ok': out}
     except Exception as e:  # noqa: BLE001
         return {'err': core.exc_kind(e), 'msg': f'{type(e).__name__}: {e}'[:300]}
 
 
-def real_choice_column(case, chosen, log=True):
-    """the way the models are used in estimation: the choice is a column of the database"""
+def real_choice_column(case, chosen, log=True, simulate=False):
+    """the way the models are used in estimation: the choice is a column of the database; evaluated by
+    `get_value_c(betas=…)`, or (simulate=True) by `BIOGEME(database, {…}).simulate(the_beta_values=…)`"""
     _quiet()
     from biogeme.expressions import Variable
 
@@ -624,6 +739,7 @@ def real_choice_column(case, chosen, log=True):
     c2['extra_cols'] = {'CHOICE': [int(c) for c in chosen]}
     fam = case['family']
     try:
+        _BETAS.clear()
         d = mk_database(c2)
         V = {a: mk_util(u) for a, u in zip(case['alts'], case['util'])}
         av = mk_av(case)
@@ -640,7 +756,14 @@ def real_choice_column(case, chosen, log=True):
             e = fn(V, av, mk_nests(case), ch)
         else:
             e = fn(V, av, mk_nests(case), ch, mk_param(case['mu']))
-        return {'ok': [float(x) for x in e.get_value_c(database=d, prepare_ids=True)]}
+        betas = dict(_BETAS)
+        if simulate:
+            from biogeme.biogeme import BIOGEME
+
+            b = BIOGEME(d, {'value': e})
+            b.generate_html, b.generate_pickle = False, False
+            return {'ok': [float(x) for x in b.simulate(the_beta_values=betas)['value']]}
+        return {'ok': [float(x) for x in e.get_value_c(database=d, betas=betas, prepare_ids=True)]}
     except Exception as e:  # noqa: BLE001
         return {'err': core.exc_kind(e), 'msg': f'{type(e).__name__}: {e}'[:300]}
 
@@ -653,11 +776,13 @@ def mk_tau(case):
     name = case.get('tau_name', 'tau')
     v = float(case['tau'])
     if form == 'beta_free':
-        return Beta(name, v, None, None, 0)
+        return free_beta(name, v, {'init': case.get('tau_init')})
     if form == 'beta_fixed':
         return Beta(name, v, None, None, 1)
     if form == 'beta_bounds':
-        return Beta(name, v, v - 10.0, v + 10.0, 0)
+        # created AT its lower bound when the case has another initial value
+        t0 = case.get('tau_init')
+        return free_beta(name, v, {'init': t0, 'lo': t0, 'hi': max(t0, v) + 10.0}) if t0 is not None else Beta(name, v, v - 10.0, v + 10.0, 0)
     if form == 'float':
         return v
     if form == 'numeric':
@@ -676,6 +801,7 @@ def real_ordered(case, obs=None):
     from biogeme import models
 
     try:
+        _BETAS.clear()
         d = mk_database(case)
         x = mk_util(case['x'])
         if not hasattr(x, 'get_value_c'):
@@ -686,7 +812,8 @@ def real_ordered(case, obs=None):
         name = case.get('tau_name', 'tau')
         fn = models.ordered_logit if case['family'] == 'ordered_logit' else models.ordered_probit
         P = fn(x, list(case['labels']), tau)
-        betas = {f'{name}_diff_{l}': float(v) for l, v in case['diffs']}
+        betas = {f'{name}_diff_{l}': float(v) for l, v in case['diffs']}     # created at 1, evaluated at v
+        betas.update(_BETAS)
         out = []
         for k, e in P.items():
             if obs is not None:
@@ -952,6 +1079,9 @@ def check_config(ctx, res, case, shift_c=None, with_model=True):
             res.tally(f"av form={sp.get('form', 'int' if sp['k'] == 'num' else 'var')}")
         if case.get('singleton'):
             res.tally('one-alternative nest')
+        if case.get('away'):
+            res.tally('evaluated away from the initial values: configurations')
+            res.tally('evaluated away from the initial values: free parameters', case['away'])
         if 'mu' in case:
             res.tally(f"scale mu form={case['mu']['form']}")
         if case.get('av_order') and case['av_order'] != case['alts']:
@@ -999,8 +1129,9 @@ def check_config(ctx, res, case, shift_c=None, with_model=True):
             _, av = row_view(case, r)
             ok = [a for i, a in enumerate(case['alts']) if av is None or av[i] != 0]
             chosen.append(ctx.rng.choice(ok))
-        rc = real_choice_column(case, chosen)
-        res.tally('choice as a column')
+        sim = ctx.rng.random() < 0.5
+        rc = real_choice_column(case, chosen, simulate=sim)
+        res.tally('choice as a column' + (' (BIOGEME.simulate with the_beta_values)' if sim else ''))
         if 'err' in rc:
             res.violate(f'{fam}: raises with the choice given as a column: {rc["msg"]}', {**case, 'chosen': chosen}, rc['msg'], 'log probability of the chosen alternative', where=where_of(case))
         else:
@@ -1033,6 +1164,7 @@ def real_logG(case, obs):
 
     fam = case['family']
     try:
+        _BETAS.clear()
         d = mk_database(case)
         V = {a: mk_util(u) for a, u in zip(case['alts'], case['util'])}
         av = mk_av(case)
@@ -1047,7 +1179,7 @@ def real_logG(case, obs):
             e = lg[a]
             if not hasattr(e, 'get_value_c'):
                 e = Numeric(e)
-            o = leanrun.observe(e, d)
+            o = leanrun.observe(e, d, dict(_BETAS))
             if 'error' in o:
                 return {'err': o['error'].split(':')[0], 'msg': o['error']}
             out[a] = o['values']
@@ -1128,6 +1260,8 @@ def check_ordered(ctx, res, case, with_model=True):
     res.tally(f'family={fam}')
     res.tally(f"values={len(case['labels'])}")
     res.tally(f"tau form={case.get('tau_form', 'beta_free')}")
+    if case.get('away'):
+        res.tally('evaluated away from the initial values: ordered configurations')
     res.count(case, nontrivial=len(case['labels']) >= 3)
     tie = _TIE if with_model and _TIE is not None and _TIE.open() else None
     obs, holder = ([] if tie else None), {}
@@ -1421,6 +1555,8 @@ def gen_structure(rng, family, kind=None):
     case['stream'] = 'nest_orders'
     case['structure'] = kind
     case['orders'] = gen_orders(rng, len(n['list']))
+    if rng.random() < 0.5:
+        perturb(rng, case)
     return case
 
 
@@ -1496,6 +1632,8 @@ def check_nest_orders(ctx, res, case, with_model=True):
     kind = case.get('structure', 'valid')
     res.tally(f'nest orders: {kind}')
     res.tally(f'nest orders: nests={len(base_lists)}')
+    if case.get('away'):
+        res.tally('evaluated away from the initial values: nest-order structures')
     res.count({k: v for k, v in case.items() if k != 'orders'}, nontrivial=True)
     where = where_of(case) + ' (nest listing order)'
     first = None            # (order, outcome, values) of the first listing order
